@@ -83,3 +83,68 @@ Example pg_nonvacuous :
                                    o_regex := Some [116;114;117;101]%N; o_pagination := true |}) [1;2;3];
        pg_fuel_out := false |}.
 Proof. vm_compute. reflexivity. Qed.
+
+(* ---- any server: termination and what the result is made of ----
+   The documented server above is one instance.  Here the server is arbitrary
+   except that it echoes the requested page number and never reports more than
+   C pages: the loop then stops within C+1 iterations whatever the pages hold,
+   asks for consecutive pages from 1, and returns the concatenation of the
+   item lists it was given, in request order. *)
+Section AnyServer.
+  Context {item : Type}.
+  Variable server : request -> response item.
+  Variable C : nat.
+  Hypothesis Hecho : forall q, r_page (server q) = q_page q.
+  Hypothesis Hcount : forall q, r_count (server q) <= C.
+  Variable flt : pfilter.
+  Variable s : nat.
+
+  Definition items_of (reqs : list request) : list item :=
+    concat (map (fun q => r_items (server q)) reqs).
+
+  Lemma items_of_app a b : items_of (a ++ b) = items_of a ++ items_of b.
+  Proof. unfold items_of. now rewrite map_app, concat_app. Qed.
+
+  Lemma any_loop_inv : forall fuel cur num,
+    C - cur < fuel -> num <= C -> 1 <= cur ->
+    exists k, cur <= k /\ k <= Nat.max cur C + 0 /\
+      pages_loop server fuel flt s cur num
+                 (items_of (map (mkreq flt s) (seq 1 cur))) (map (mkreq flt s) (seq 1 cur))
+      = Some (items_of (map (mkreq flt s) (seq 1 k)), map (mkreq flt s) (seq 1 k)).
+  Proof.
+    induction fuel as [|fuel IH]; intros cur num Hf Hn Hc; [lia|].
+    cbn [pages_loop]. destruct (cur <? num) eqn:E.
+    - apply Nat.ltb_lt in E.
+      assert (Hseq : map (mkreq flt s) (seq 1 cur) ++ [mkreq flt s (cur + 1)]
+                     = map (mkreq flt s) (seq 1 (cur + 1))).
+      { replace (cur + 1) with (S cur) by lia. rewrite seq_S, map_app. reflexivity. }
+      assert (Hit : items_of (map (mkreq flt s) (seq 1 (cur + 1)))
+                    = items_of (map (mkreq flt s) (seq 1 cur))
+                      ++ r_items (server (mkreq flt s (cur + 1)))).
+      { rewrite <- Hseq. unfold items_of. rewrite map_app, concat_app.
+        cbn [map concat]. now rewrite app_nil_r. }
+      destruct (r_items (server (mkreq flt s (cur + 1)))) as [|x t] eqn:Eit.
+      + exists (cur + 1). split; [lia|]. split; [lia|].
+        rewrite Hseq, Hit, app_nil_r. reflexivity.
+      + rewrite Hseq, <- Hit, Hecho. cbn [q_page mkreq].
+        destruct (IH (cur + 1) (r_count (server (mkreq flt s (cur + 1)))))
+          as [k [Hk1 [Hk2 Hk]]]; [lia | apply Hcount | lia |].
+        exists k. split; [lia|]. split; [lia|]. exact Hk.
+    - exists cur. split; [lia|]. split; [lia|]. reflexivity.
+  Qed.
+
+  Theorem list_pages_any_server :
+    exists k, 1 <= k /\ k <= Nat.max 1 C /\
+      list_pages server (S C) flt s
+      = Some (items_of (map (mkreq flt s) (seq 1 k)), map (mkreq flt s) (seq 1 k)).
+  Proof.
+    unfold list_pages. rewrite Hecho. cbn [q_page mkreq].
+    replace (r_items (server (mkreq flt s 1)))
+      with (items_of (map (mkreq flt s) (seq 1 1)))
+      by (unfold items_of; cbn [seq map concat]; now rewrite app_nil_r).
+    change [mkreq flt s 1] with (map (mkreq flt s) (seq 1 1)).
+    destruct (any_loop_inv (S C) 1 (r_count (server (mkreq flt s 1))))
+      as [k [Hk1 [Hk2 Hk]]]; [lia | apply Hcount | lia |].
+    exists k. split; [lia|]. split; [lia|]. exact Hk.
+  Qed.
+End AnyServer.
